@@ -53,3 +53,10 @@ package telem
 //@   ensures a.OverlapsWith(b) == SpecOvl(a, b)
 //@   ensures a.OverlapsWith(b) == b.OverlapsWith(a)
 //@   ensures a.Start < a.End && b.Start < b.End ==> (a.OverlapsWith(b) == (a.Start < b.End && b.Start < a.End))
+
+//@ # ---- Frame: raw accessors and Append are executed in place; whether a raw index is hidden by the
+//@ # 128-bit mask is an uninterpreted predicate of (frame, index) for callers (pragma abstract)
+//@ inline func (f Frame[K]) RawKeys() []K
+//@ inline func (f Frame[K]) RawSeries() []Series
+//@ inline func (f Frame[K]) Append(key K, series Series) Frame[K]
+//@ pure func (f Frame[K]) ShouldExcludeRaw(rawIndex int) bool
